@@ -12,25 +12,25 @@ LEAN_NOTE = "trusted: Lean 4.33 kernel (axioms at most propext, Classical.choice
 CLAIMS = {
     "C01": dict(
         engine="codec",
-        text="Lean 4 theorems over the executable codec model, for ALL messages (any frame count/length < 2^64): the bytes written parse under an independent strict RFC-23 grammar to exactly the frames sent, the library decoder returns the identical message, greeting/READY well-formed. Tie: the model's encode/decode and the real ZmqCodec are run on the same messages (exhaustive length grids x 1..3 frames, seeded messages, READY for 9 types x 6 identities) and must agree byte for byte; greeting and READY tables are regenerated from the code each run and proved equal to the model by decide. SOCKET level: each of the 9 socket types with configured identities of 0..255 bytes accepts a raw peer over a scripted pipe; the greeting + READY written by the real handshake are parsed by a python RFC-23 reference (Socket-Type = the type, Identity iff configured).",
+        text="Lean 4 theorems over the executable codec model, for ALL messages (any frame count/length < 2^64): the bytes written parse under an independent strict RFC-23 grammar to exactly the frames sent, the library decoder returns the identical message, greeting/READY well-formed. Tie: the model's encode/decode and the real ZmqCodec are run on the same messages (exhaustive length grids x 1..3 frames, seeded messages, READY for 9 types x 6 identities) and must agree byte for byte; greeting and READY tables are regenerated from the code each run and proved equal to the model by decide. SOCKET level: each of the 9 socket types with configured identities of 0..255 bytes accepts a raw peer over a scripted pipe; the greeting + READY written by the real handshake are parsed by a python RFC-23 reference (Socket-Type = the type, Identity iff configured). Family socket-pressure: sends under partial write credit, sends abandoned after a partial write and followed by another, publishes to a subscriber that stalls between messages — everything the socket wrote after the handshake must parse (python RFC-23 reference) into messages that were sent, in order.",
         note=LEAN_NOTE + "BytesMut put/extend modelled as list append; bodies > 48 bytes compared by length + FNV-64",
         technique="Lean 4 proof (round-trip law against an independent RFC-23 grammar) + differential correspondence + regenerated tables",
     ),
     "C02": dict(
         engine="codec",
-        text="Lean 4 theorem `feedAll chunks = feed chunks.flatten` for every decoder state, every byte stream (valid or not) and EVERY partition into reads (run_append by well-founded induction), plus prefix-monotonicity (nothing surfaces early / twice) and whole-message delivery. Tie: real ZmqCodec fed chunk by chunk vs the model, exhaustively over all partitions of short streams, all 1- and 2-cuts of a medium stream, byte-at-a-time, random partitions of long streams; the Spec oracle compares the implementation's segmented and one-read runs directly.",
+        text="Lean 4 theorem `feedAll chunks = feed chunks.flatten` for every decoder state, every byte stream (valid or not) and EVERY partition into reads (run_append by well-founded induction), plus prefix-monotonicity (nothing surfaces early / twice) and whole-message delivery. Tie: real ZmqCodec fed chunk by chunk vs the model, exhaustively over all partitions of short streams, all 1- and 2-cuts of a medium stream, byte-at-a-time, random partitions of long streams; the Spec oracle compares the implementation's segmented and one-read runs directly. SOCKET level (world engine): the peer's first message cut at EVERY byte together with the end of its READY, the rest later, for all 8 socket types that read (PUB: the subscription takes effect) — the hand-over of the framed reader from the handshake to the socket.",
         note=LEAN_NOTE + "asynchronous-codec FramedRead2 modelled as 'decode until None after every read'",
         technique="Lean 4 proof (incremental parser = batch parser) + differential correspondence over all partitions",
     ),
     "C03": dict(
         engine="codec",
-        text="Lean 4 theorems over a decoder model that carries the abort conditions of every bytes-crate primitive the code calls: no byte stream in any state reaches a panic site, retained bytes <= received bytes, a declared length stores nothing; SocketType::compatible total over the table regenerated from the code (decide). PARTIAL w.r.t. the runtime: allocator and stack are observed, not modelled — hostile streams (exhaustive alphabet, length-field/truncation mutations, 20 000 MORE frames, junk greetings, random) run against the real decoder on a 256 KiB-stack thread with a counting allocator, crashes isolated by process bisection; and floods of items a socket's recv loop ignores (6 000 / 25 000 commands, bogus subscriptions, non-matching topics in ONE read) through real sockets of all 8 reading types, polled on a 2 MiB-stack thread, followed by a valid message and a healthy peer's message. Peer-state families: state built from a peer's WELL-FORMED bytes (subscriptions of 0..1000 bytes, plain / cancelled / multi-frame / garbage; ROUTER identities of every legal length; REP envelopes of up to 40 frames) and then used by the application's own send/reply must not panic.",
+        text="Lean 4 theorems over a decoder model that carries the abort conditions of every bytes-crate primitive the code calls: no byte stream in any state reaches a panic site, retained bytes <= received bytes, a declared length stores nothing; SocketType::compatible total over the table regenerated from the code (decide). PARTIAL w.r.t. the runtime: allocator and stack are observed, not modelled — hostile streams (exhaustive alphabet, length-field/truncation mutations, 20 000 MORE frames, junk greetings, random) run against the real decoder on a 256 KiB-stack thread with a counting allocator, crashes isolated by process bisection; and floods of items a socket's recv loop ignores (6 000 / 25 000 commands, bogus subscriptions, non-matching topics in ONE read) through real sockets of all 8 reading types, polled on a 2 MiB-stack thread, followed by a valid message and a healthy peer's message. Peer-state families: state built from a peer's WELL-FORMED bytes (subscriptions of 0..1000 bytes, plain / cancelled / multi-frame / garbage; ROUTER identities of every legal length; REP envelopes of up to 40 frames) and then used by the application's own send/reply must not panic. known-command-odd-body: every command name the ZMTP RFCs know x 13 truncated/odd bodies as short and long frames.",
         note=LEAN_NOTE + "bytes crate panic conditions as modelled in Model/Basic.lean; heap budget 64 x bytes received + 32 KiB",
         technique="Lean 4 proof (explicit panic outcomes, retained-bytes invariant) + hostile-input correspondence with heap/stack observation",
     ),
     "C04": dict(
         engine="world",
-        text="Table clauses are PROOFS over tables regenerated from the real code on every run (decide): SocketType::compatible total, symmetric and equal to the RFC 28/29/30/31 relation on all 144 pairs; names and near-misses; mechanism field. Lean 4 theorems on the World model's handshake decision: admit <-> (Socket-Type present, known, RFC-compatible, Identity <= 255); admitted under the announced identity or a fresh one; registered exactly once; a rejected connection changes no socket and drops both halves. Tie: real handshake via attach over scripted pipes on the FULL compatibility plane 9x14, every single-factor deviation, pairwise sample (quick) / whole product ~1.1e5 (thorough); python RFC oracle.",
+        text="Table clauses are PROOFS over tables regenerated from the real code on every run (decide): SocketType::compatible total, symmetric and equal to the RFC 28/29/30/31 relation on all 144 pairs; names and near-misses; mechanism field. Lean 4 theorems on the World model's handshake decision: admit <-> (Socket-Type present, known, RFC-compatible, Identity <= 255); admitted under the announced identity or a fresh one; registered exactly once; a rejected connection changes no socket and drops both halves. Tie: real handshake via attach over scripted pipes on the FULL compatibility plane 9x14, every single-factor deviation, pairwise sample (quick) / whole product ~1.1e5 (thorough); python RFC oracle. Socket-level theorems C04_world_handshake_*: the handshake future carries an invariant against the connection's byte stream; Ok(identity) only if the stream begins with an acceptable greeting and an admissible READY, for every segmentation and number of polls.",
         note=LEAN_NOTE + "UUIDv4 uniqueness for fresh identities; RFC table as typed in",
         technique="Lean 4 proof (decide over regenerated tables; iff on the admission decision) + exhaustive handshake-grid correspondence",
     ),
@@ -54,13 +54,13 @@ CLAIMS = {
     ),
     "C08": dict(
         engine="world",
-        text="Lean 4 theorems on the World model's REQ/REP call functions: out-of-turn send/recv return the WHOLE world unchanged with the message handed back; accepted recv only in phase awaiting -> idle, pending recv stays awaiting (refinement to the alternation automaton); a REP reply touches no pipe other than the requester's (frame lemma). Tie: ALL call sequences to length 6 on a real REQ and length 5/6 on a real REP with two clients, seeded schedules with 1..4 clients; wires of every connection read after every call; reference-automaton oracle.",
+        text="Lean 4 theorems on the World model's REQ/REP call functions: out-of-turn send/recv return the WHOLE world unchanged with the message handed back; accepted recv only in phase awaiting -> idle, pending recv stays awaiting (refinement to the alternation automaton); a REP reply touches no pipe other than the requester's (frame lemma). Tie: ALL call sequences to length 6 on a real REQ and length 5/6 on a real REP with two clients, seeded schedules with 1..4 clients; wires of every connection read after every call; reference-automaton oracle. Families rep-same-identity (two connections announce one identity: the reply goes to the connection the request came from) and C08_world_req_recv (REQ recv consumes exactly the first item of the awaited peer's byte stream).",
         note=LEAN_NOTE + "scc::HashMap async ops as immediate; one live future per socket",
         technique="Lean 4 proof (refinement to alternation automaton, frame lemma for routing) + exhaustive call-sequence correspondence",
     ),
     "C14": dict(
         engine="world",
-        text="Lean 4: in the World model the recv future of every fair-queue socket is stateless (a pending poll leaves exactly the freshly-issued future), REQ keeps the request marker in the socket while its recv is pending, and at fair-queue level abandon+reissue is a spurious poll, covered by the conservation invariant for all schedules. Tie (the substance): real recv futures of all 7 socket types polled k=1..3 times and DROPPED at every byte-arrival position of a two-message stream, repeated, then drained — the model must predict every line; oracle: drained sequence = messages on the wire; REQ refuses the second send and returns the first reply; a later recv that goes Pending first is WOKEN by its own waker when the bytes arrive (every future has its own waker; op `woken`); REP answers an outstanding request behind its envelope after further recvs were abandoned. Socket-level theorem C14_world_any_poll_is_a_history_step: a poll of ANY recv future (fresh, re-polled, successor of an abandoned one) is a step of the histories over which C05_world_exactly_once holds — abandoning recv calls at any suspension point loses, duplicates and reorders nothing.",
+        text="Lean 4: in the World model the recv future of every fair-queue socket is stateless (a pending poll leaves exactly the freshly-issued future), REQ keeps the request marker in the socket while its recv is pending, and at fair-queue level abandon+reissue is a spurious poll, covered by the conservation invariant for all schedules. Tie (the substance): real recv futures of all 7 socket types polled k=1..3 times and DROPPED at every byte-arrival position of a two-message stream, repeated, then drained — the model must predict every line; oracle: drained sequence = messages on the wire; REQ refuses the second send and returns the first reply; a later recv that goes Pending first is WOKEN by its own waker when the bytes arrive (every future has its own waker; op `woken`); REP answers an outstanding request behind its envelope after further recvs were abandoned. Socket-level theorem C14_world_any_poll_is_a_history_step: a poll of ANY recv future (fresh, re-polled, successor of an abandoned one) is a step of the histories over which C05_world_exactly_once holds — abandoning recv calls at any suspension point loses, duplicates and reorders nothing. Family req-noise: a command frame arrives before the reply, the recv polled over it is abandoned while Pending — the next send is refused, the reply answers the first request.",
         note=LEAN_NOTE + "futures are dropped between polls only",
         technique="Lean 4 proof (stateless-future lemmas, REQ marker invariant) + exhaustive cancellation-point correspondence",
     ),
@@ -72,13 +72,13 @@ CLAIMS = {
     ),
     "C10": dict(
         engine="world",
-        text="Lean 4: rotation laws on the pop-front/push-back queue (n consecutive sends over n peers hit each exactly once and restore the queue; distinct; permutation), and on the World model's send_round_robin: empty rotation -> world unchanged with the message handed back; a completed send touched only the chosen peer's pipe, left its buffer EMPTY (fully written) and pushed the peer back. Tie: real PUSH/DEALER/REQ with 0..5 scripted peers x join positions x 2n+1 sends, wires of every peer at the instant send returns Ready, partial-write and stall/resume credit scripts with the wire read while Pending; python oracle for one-peer/complete/rotation.",
+        text="Lean 4: rotation laws on the pop-front/push-back queue (n consecutive sends over n peers hit each exactly once and restore the queue; distinct; permutation), and on the World model's send_round_robin: empty rotation -> world unchanged with the message handed back; a completed send touched only the chosen peer's pipe, left its buffer EMPTY (fully written) and pushed the peer back. Tie: real PUSH/DEALER/REQ with 0..5 scripted peers x join positions x 2n+1 sends, wires of every peer at the instant send returns Ready, partial-write and stall/resume credit scripts with the wire read while Pending; python oracle for one-peer/complete/rotation. Socket-level theorems C10_world_send_*: a send in progress hands the chosen connection the complete encoding exactly once over all its polls; no other write side is touched.",
         note=LEAN_NOTE + "crossbeam SegQueue as FIFO; cancelling a send mid-flush is outside the quantifier",
         technique="Lean 4 proof (rotation invariant, frame lemma, flushed-at-return) + differential correspondence with credit scripts",
     ),
     "C11": dict(
         engine="world",
-        text="Lean 4: refinement of the code's subscription LIST to the Spec's MULTISET (abs (onMsg s m) = Spec.onMsg (abs s) m for every message: subscribe, unsubscribe, garbage, empty, multi-frame; lifted to whole histories), the delivery decision stated outright (copy written iff a topic with positive count is a byte-prefix of the first frame), at most one copy, empty subscription matches all, garbage is a no-op. Tie: real PUB (reader tasks drained) and XPUB (subscriptions consumed by recv) with scripted subscribers; ALL histories to length 3/4 over 8 sub/unsub ops + 3 kinds of garbage x 5 published first frames, sampled longer ones, 2..3 subscribers; independent python multiset-prefix oracle; XPUB hands over subscription messages verbatim in per-peer order.",
+        text="Lean 4: refinement of the code's subscription LIST to the Spec's MULTISET (abs (onMsg s m) = Spec.onMsg (abs s) m for every message: subscribe, unsubscribe, garbage, empty, multi-frame; lifted to whole histories), the delivery decision stated outright (copy written iff a topic with positive count is a byte-prefix of the first frame), at most one copy, empty subscription matches all, garbage is a no-op. Tie: real PUB (reader tasks drained) and XPUB (subscriptions consumed by recv) with scripted subscribers; ALL histories to length 3/4 over 8 sub/unsub ops + 3 kinds of garbage x 5 published first frames, sampled longer ones, 2..3 subscribers; independent python multiset-prefix oracle; XPUB hands over subscription messages verbatim in per-peer order. Family identity-takeover: a second connection under a registered identity starts with NO subscriptions (exposed finding D18, repaired). Theorem C11_world_pub_reader: PUB's per-subscriber reader task folds onMsg over exactly the messages of a prefix of that connection's byte stream.",
         note=LEAN_NOTE + "PUB's reader tasks observed at quiescent points; tokio current-thread scheduling",
         technique="Lean 4 proof (refinement list -> multiset, decision logic stated outright) + exhaustive short-history correspondence",
     ),
@@ -90,31 +90,31 @@ CLAIMS = {
     ),
     "C13": dict(
         engine="world",
-        text="Lean 4: for ALL histories of subscribe/unsubscribe/atomic join, every peer's wire folded with the publisher's semantics (C11) equals the socket's set (invariant by induction); failure isolation (each peer's update is independent); the SPLIT join is modelled too and the full property is proved FALSE on a concrete history (C13_race_witness) with the partial theorem excluding exactly that window — a recorded known finding (D10). Tie: real SUB with scripted publishers, all histories to length 4/5 x join at every position, failing peer first, failing join, the split join reached deterministically by stalling the new pipe; python oracle folds every peer's wire. Back-pressure family: every history of length <= 3 x every call x each of two peers accepting only 0..2 bytes during that call — the call waits, the peer becomes writable, the call completes, and every peer (the slow one included) and a late joiner have been told.",
+        text="Lean 4: for ALL histories of subscribe/unsubscribe/atomic join, every peer's wire folded with the publisher's semantics (C11) equals the socket's set (invariant by induction); failure isolation (each peer's update is independent); the SPLIT join is modelled too and the full property is proved FALSE on a concrete history (C13_race_witness) with the partial theorem excluding exactly that window — a recorded known finding (D10). Tie: real SUB with scripted publishers, all histories to length 4/5 x join at every position, failing peer first, failing join, the split join reached deterministically by stalling the new pipe; python oracle folds every peer's wire. Back-pressure family: every history of length <= 3 x every call x each of two peers accepting only 0..2 bytes during that call — the call waits, the peer becomes writable, the call completes, and every peer (the slow one included) and a late joiner have been told. Family abandoned-join: a join abandoned while the new peer is being told the subscriptions leaves nothing behind.",
         note=LEAN_NOTE + "HashSet/HashMap iteration orders abstracted (compared as multisets / at quiescent points)",
         technique="Lean 4 proof (invariant over histories; negation witness for the join race) + exhaustive history x join-point correspondence",
     ),
     "C15": dict(
         engine="world",
-        text="Lean 4: abstract select!-loop model with the choice among ready sides as a free parameter — for EVERY interleaving of arrivals and EVERY choice sequence: sent-on-the-other-side ++ still-queued = everything that arrived, per direction (verbatim, once, in order), capture gets one copy per forwarded message, the losing side's message stays queued; chain clause via C07_chain. Tie: the real proxy(ROUTER, DEALER, capture PUSH/PUB/none) future stepped one poll at a time over scripted clients/workers/sink, exhaustive 3-event arrival patterns incl. both sides ready in one poll, 1..2 clients x 1..2 workers x payload shapes, seeded schedules; the World model (proxyPoll) predicts every wire; oracle: forwarded = received per direction, per-source order, capture copies, replies reach the client named in their envelope. Family chain-reconnect: a client connects again under its configured identity while its old connection is still registered (open, or closed but not yet polled) and makes a request — answered on the NEW connection only.",
+        text="Lean 4: abstract select!-loop model with the choice among ready sides as a free parameter — for EVERY interleaving of arrivals and EVERY choice sequence: sent-on-the-other-side ++ still-queued = everything that arrived, per direction (verbatim, once, in order), capture gets one copy per forwarded message, the losing side's message stays queued; chain clause via C07_chain. Tie: the real proxy(ROUTER, DEALER, capture PUSH/PUB/none) future stepped one poll at a time over scripted clients/workers/sink, exhaustive 3-event arrival patterns incl. both sides ready in one poll, 1..2 clients x 1..2 workers x payload shapes, seeded schedules; the World model (proxyPoll) predicts every wire; oracle: forwarded = received per direction, per-source order, capture copies, replies reach the client named in their envelope. Family chain-reconnect: a client connects again under its configured identity while its old connection is still registered (open, or closed but not yet polled) and makes a request — answered on the NEW connection only. Family no-worker: a request taken while the backend has no peer — the proxy may end with the error but must not keep running having dropped it.",
         note=LEAN_NOTE + "futures::select! as a free choice among ready branches; schedules where a send blocks while both sides are ready are not compared",
         technique="Lean 4 proof (invariant for all choice sequences) + one-poll-at-a-time correspondence of the real proxy future",
     ),
     "C16": dict(
         engine="world",
-        text="Lean 4 on the World model's peer_disconnected (as coded per backend) and fair-queue poll: forgotten (no table entry a later send consults), isolated (no other peer's entry changes), write half released (every socket type); an orderly EOF observed by the fair-queue poll forgets the peer whatever else that poll goes on to do (C16_eof_forgets) and releases both halves; a failed write in REQ/ROUTER/REP send and an ended/failed reply stream in REQ recv forget the peer. (On the pinned tree the last three were FALSE — proved as negations, recorded as findings D12/D13, then repaired by two fix: commits; every (type, event) pair is now required to hold.) PARTIAL: descriptor release observed via the pipe halves' Drop flags, not modelled. Tie: 9 socket types x every cut position of the victim's stream (each handshake stage, header, 8-byte length, body, between frames, between messages) x {EOF, read error, write error, protocol error} with bystanders; recv error count / no spin, late sends, halves. Family publisher-write-fault: PUB/XPUB with a subscriber whose writes fail (ConnectionReset, BrokenPipe, TimedOut, ConnectionAborted) with and without a backlog at its high-water mark — every later publish returns ok at once and every other subscriber receives every message.",
+        text="Lean 4 on the World model's peer_disconnected (as coded per backend) and fair-queue poll: forgotten (no table entry a later send consults), isolated (no other peer's entry changes), write half released (every socket type); an orderly EOF observed by the fair-queue poll forgets the peer whatever else that poll goes on to do (C16_eof_forgets) and releases both halves; a failed write in REQ/ROUTER/REP send and an ended/failed reply stream in REQ recv forget the peer. (On the pinned tree the last three were FALSE — proved as negations, recorded as findings D12/D13, then repaired by two fix: commits; every (type, event) pair is now required to hold.) PARTIAL: descriptor release observed via the pipe halves' Drop flags, not modelled. Tie: 9 socket types x every cut position of the victim's stream (each handshake stage, header, 8-byte length, body, between frames, between messages) x {EOF, read error, write error, protocol error} with bystanders; recv error count / no spin, late sends, halves. Family publisher-write-fault: PUB/XPUB with a subscriber whose writes fail (ConnectionReset, BrokenPipe, TimedOut, ConnectionAborted) with and without a backlog at its high-water mark — every later publish returns ok at once and every other subscriber receives every message. Family sub-replay-fault: a write fault exactly at SUB's subscription replay leaves nothing registered.",
         note=LEAN_NOTE + "FramedRead2 EOF handling modelled; OS descriptor release observed not modelled",
         technique="Lean 4 proof (per-event theorems) + fault-position x event correspondence",
     ),
     "C17": dict(
         engine="world",
-        text="Lean 4: ownership graph with reference-count semantics (Freed = inductive least fixpoint): with the repaired fair queue, dropping/closing the socket frees every registered connection whatever wakers were armed (dropped_closes) and always frees the accept tasks; the NEGATION for the queue as it was (an armed StreamWaker closes a strong cycle through the transport — reproduced on the real code, repaired by a fix: commit); with both repairs EVERY connection — registered or still in its handshake — is freed (C17_all_closed); the negation for detached handshake tasks (a stalled peer's connection survived close/drop: finding D14, repaired by a fix: commit). World model: Drop/close() empty every table. PARTIAL: OS sockets, tokio scheduling and 'shortly afterwards' are observed, not modelled. Tie: 9 socket types x all 2^5 history prefixes {recv pending, recv delivered, send, peer EOF, pending handshake} x {drop, close()} over scripted pipes whose halves record their own Drop, compared half by half; real listeners (net engine): type x transport x {bound, accepted, traffic, pending handshake, CONNECTED OUT through connect()} x {close, drop}, and close/drop issued while ANOTHER THREAD holds the fair queue's lock (a slow waker woken by a registering handshake task / by arriving data). Net family registration-pending: a SUB socket with a subscription set larger than the transport buffers and a peer that completed the handshake but does not read (state: handshake done, registration pending) — after close()/drop the peer reaches end-of-stream before reading more than can have been in flight; after close() RETURNS the FIRST fresh connection attempt must be refused (single probe, no polling).",
+        text="Lean 4: ownership graph with reference-count semantics (Freed = inductive least fixpoint): with the repaired fair queue, dropping/closing the socket frees every registered connection whatever wakers were armed (dropped_closes) and always frees the accept tasks; the NEGATION for the queue as it was (an armed StreamWaker closes a strong cycle through the transport — reproduced on the real code, repaired by a fix: commit); with both repairs EVERY connection — registered or still in its handshake — is freed (C17_all_closed); the negation for detached handshake tasks (a stalled peer's connection survived close/drop: finding D14, repaired by a fix: commit). World model: Drop/close() empty every table. PARTIAL: OS sockets, tokio scheduling and 'shortly afterwards' are observed, not modelled. Tie: 9 socket types x all 2^5 history prefixes {recv pending, recv delivered, send, peer EOF, pending handshake} x {drop, close()} over scripted pipes whose halves record their own Drop, compared half by half; real listeners (net engine): type x transport x {bound, accepted, traffic, pending handshake, CONNECTED OUT through connect()} x {close, drop}, and close/drop issued while ANOTHER THREAD holds the fair queue's lock (a slow waker woken by a registering handshake task / by arriving data). Net family registration-pending: a SUB socket with a subscription set larger than the transport buffers and a peer that completed the handshake but does not read (state: handshake done, registration pending) — after close()/drop the peer reaches end-of-stream before reading more than can have been in flight; after close() RETURNS the FIRST fresh connection attempt must be refused (single probe, no polling). World family stalled-subscriber (PUB/XPUB go away with output still buffered for a subscriber that is not reading); net family accept-failing (close/drop during a descriptor shortage).",
         note=LEAN_NOTE + "Arc/Drop semantics as modelled by the ownership graph; listeners/OS observed by the net engine where built",
         technique="Lean 4 proof (inductive Freed over the ownership graph; cycle-leak negation) + exhaustive history-prefix correspondence on pipe Drop flags",
     ),
     "C18": dict(
         engine="net",
-        text="Lean 4 on the bind-table model (Model/Net.lean; OS outcomes are inputs with their assumptions spelled out): a successful bind returns a NEW endpoint id and adds exactly it, other sockets untouched; a failed bind (address in use, malformed) returns the state unchanged; unbind of a bound endpoint removes exactly it and leaves connections and other sockets untouched; unbind of anything else = NoSuchBind with the state unchanged; a fresh connect is accepted iff the endpoint is in the bind set of a live socket (listener running <-> bound). PARTIAL: OS, scheduler, timing observed not modelled. Tie: real multi-thread runtime, real TCP v4/v6 + IPC, raw clients; directed cases per type x transport and seeded op sequences <= 12 over bind/dup/rebind/malformed/unbind/unknown/connect-in/message-on-old-connection/a client STALLED in its handshake (the endpoint must go on accepting and unbind must return); the model predicts the outcome class of every op; python reference BindSet oracle (binds() after every op, connect right after unbind returns).",
+        text="Lean 4 on the bind-table model (Model/Net.lean; OS outcomes are inputs with their assumptions spelled out): a successful bind returns a NEW endpoint id and adds exactly it, other sockets untouched; a failed bind (address in use, malformed) returns the state unchanged; unbind of a bound endpoint removes exactly it and leaves connections and other sockets untouched; unbind of anything else = NoSuchBind with the state unchanged; a fresh connect is accepted iff the endpoint is in the bind set of a live socket (listener running <-> bound). PARTIAL: OS, scheduler, timing observed not modelled. Tie: real multi-thread runtime, real TCP v4/v6 + IPC, raw clients; directed cases per type x transport and seeded op sequences <= 12 over bind/dup/rebind/malformed/unbind/unknown/connect-in/message-on-old-connection/a client STALLED in its handshake (the endpoint must go on accepting and unbind must return); the model predicts the outcome class of every op; python reference BindSet oracle (binds() after every op, connect right after unbind returns). accept-error-unbind-during: unbind issued while accept() keeps failing returns and the endpoint refuses afterwards.",
         note=LEAN_NOTE + "OS hands out no listening address twice; refusal immediate on loopback/unix sockets; transports unavailable in the sandbox are skipped and recorded",
         technique="Lean 4 proof (refinement of the bind table to a set) + real-runtime outcome-class correspondence",
     ),
@@ -126,7 +126,7 @@ CLAIMS = {
     ),
     "C20": dict(
         engine="net",
-        text="Lean 4 on the per-connection handshake-task model (Model/Net.lean): a step of connection c's task changes no other connection, no bind table, no socket's liveness (locality); what it concludes is a function of c's OWN bytes and the local socket type only (non-interference: a peer supplying a valid greeting + compatible READY is registered by its own step whatever the other connections do); accepting depends on the bind tables only; a failing handshake appends exactly one AcceptFailed and closes the connection. PARTIAL: that the code really runs one task per connection is OBSERVED. Tie: real runtime, TCP + IPC, every bound socket type: raw clients that stop / close / send garbage at byte offset k of greeting+READY (boundary grid quick; thorough: every offset for PULL and ROUTER, the grid for the other types), 1..3 at once, and bursts of connections ABORTED (RST) right after connect, with good clients before (established traffic continues), during and after; monitor event multiset compared; model predicts every outcome class.",
+        text="Lean 4 on the per-connection handshake-task model (Model/Net.lean): a step of connection c's task changes no other connection, no bind table, no socket's liveness (locality); what it concludes is a function of c's OWN bytes and the local socket type only (non-interference: a peer supplying a valid greeting + compatible READY is registered by its own step whatever the other connections do); accepting depends on the bind tables only; a failing handshake appends exactly one AcceptFailed and closes the connection. PARTIAL: that the code really runs one task per connection is OBSERVED. Tie: real runtime, TCP + IPC, every bound socket type: raw clients that stop / close / send garbage at byte offset k of greeting+READY (boundary grid quick; thorough: every offset for PULL and ROUTER, the grid for the other types), 1..3 at once, and bursts of connections ABORTED (RST) right after connect, with good clients before (established traffic continues), during and after; monitor event multiset compared; model predicts every outcome class. long-stall: a client silent for 6.5 s (31 s thorough) before it goes away is still reported.",
         note=LEAN_NOTE + "tokio task scheduling and the kernel accept queue observed, not modelled; Disconnected events not compared",
         technique="Lean 4 proof (locality + non-interference of per-connection tasks) + real-runtime stall/garbage-offset correspondence",
     ),
